@@ -293,6 +293,8 @@ func (m *model) fire(pre bool, contract, from common.Address, data []byte, value
 	return false, Answer{}
 }
 
+var pairingTrue = append(make([]byte, 31), 1)
+
 // call performs one call-type instruction issued by frame caller (nil: host) in context cx.
 // Returns (ok, instruction-level fault of the caller, return data).
 func (m *model) call(callerFrame *Frame, cx mctx, kind Kind, to common.Address, child *Frame, value uint64, data []byte) (ok bool, fault bool, ret []byte) {
@@ -326,7 +328,7 @@ func (m *model) call(callerFrame *Frame, cx mctx, kind Kind, to common.Address, 
 		}
 		snap := w.clone()
 		if !w.Exists[to] {
-			if to != Precompile && value == 0 {
+			if to != Precompile && to != BadPrecompile && value == 0 {
 				n.OK = true
 				return true, false, nil
 			}
@@ -337,6 +339,14 @@ func (m *model) call(callerFrame *Frame, cx mctx, kind Kind, to common.Address, 
 		case to == Precompile:
 			n.OK, n.Ret = true, data
 			return true, false, data
+		case to == BadPrecompile:
+			if len(data) == 0 {
+				n.OK, n.Ret = true, pairingTrue
+				return true, false, pairingTrue
+			}
+			// the precompile rejects the input: the frame fails, the value transfer and account creation are undone
+			*w = *snap
+			return false, false, nil
 		case child == nil:
 			n.OK = true
 			return true, false, nil
@@ -394,6 +404,11 @@ func (m *model) call(callerFrame *Frame, cx mctx, kind Kind, to common.Address, 
 		switch {
 		case to == Precompile:
 			return true, false, data
+		case to == BadPrecompile:
+			if len(data) == 0 {
+				return true, false, pairingTrue
+			}
+			return false, false, nil
 		case child == nil:
 			return true, false, nil
 		}
@@ -469,7 +484,7 @@ func (m *model) call(callerFrame *Frame, cx mctx, kind Kind, to common.Address, 
 }
 
 func (m *model) effect(f *Frame, cx mctx, e Effect, pos int) (ok bool) {
-	key, val := sKey(f.ID, pos), sVal(f.ID, pos)
+	key, val := sKey(m.s.Kid(f.ID), pos), sVal(f.ID, pos)
 	switch e {
 	case ESstore:
 		if cx.static {
@@ -482,7 +497,7 @@ func (m *model) effect(f *Frame, cx mctx, e Effect, pos int) (ok bool) {
 		}
 		m.w.Logs = append(m.w.Logs, MLog{cx.addr, logTopic(f.ID, pos)})
 	case EJournal, EJournalAA, EJournalABA:
-		name := JournalName(f.ID, pos)
+		name := JournalName(m.s.Kid(f.ID), pos)
 		has := false
 		for _, k := range m.res.Keys[cx.addr] {
 			if k == name {
@@ -541,6 +556,8 @@ func (m *model) run(f *Frame, cx mctx) (ok, reverted bool, ret []byte) {
 			to = Precompile
 		case TgCodeless:
 			to = Codeless
+		case TgBadPrecompile:
+			to = BadPrecompile
 		}
 		child := c.Child
 		if c.Target == TgSelf {
@@ -601,7 +618,7 @@ func (m *model) run(f *Frame, cx mctx) (ok, reverted bool, ret []byte) {
 
 // Addresses lists every address the scenario can touch (for state comparison).
 func (r *MResult) Addresses(s *Scn) []common.Address {
-	set := map[common.Address]bool{world.Origin: true, Codeless: true, Precompile: true}
+	set := map[common.Address]bool{world.Origin: true, Codeless: true, Precompile: true, BadPrecompile: true}
 	s.Walk(func(f *Frame, static bool, depth int, parent *Frame) { set[FrameAddr(f.ID)] = true })
 	for _, n := range r.Nodes {
 		if n.Created != (common.Address{}) {
@@ -620,7 +637,7 @@ func (r *MResult) Addresses(s *Scn) []common.Address {
 func (s *Scn) Slots() []uint64 {
 	var out []uint64
 	s.Walk(func(f *Frame, static bool, depth int, parent *Frame) {
-		out = append(out, sKey(f.ID, 1), sKey(f.ID, 2), FlagSlot(f.ID), RdsSlot(f.ID))
+		out = append(out, sKey(s.Kid(f.ID), 1), sKey(s.Kid(f.ID), 2), FlagSlot(f.ID), RdsSlot(f.ID))
 	})
 	return out
 }
